@@ -130,6 +130,11 @@ Definition seq_ops : list (string * handler) :=
         | Some d, Some o => let v := sview d o in
             Some (VL [ofNs v; ofNs (map base_char v); ofNs (text v);
                       (if Nat.ltb (length v) 256 then ofNs (text v) else VAny); ofNs v; ofnat (length v)]) | _, _ => None end | _ => None end);
+    (* to_owned of a view must be THE DnaString of the view's bases: ==, Hasher input, cmp and ndiffs against
+       DnaString::from_bytes(view) are computed by the harness; the specification value is constant true (the
+       input is carried for the replay) *)
+    ("s.sl.owned_eq"%string, fun a => match a with [VL l; VL ops] => match vlistN l, omap v_sop ops with
+        | Some _, Some _ => Some (ofbool true) | _, _ => None end | _ => None end);
     ("s.sl.kmer"%string, fun a => match a with [VN k; VL l; VL ops; VN pos] => match vlistN l, omap v_sop ops with
         | Some d, Some o => Some (ofNs (kmer_at (N.to_nat k) (sview d o) (N.to_nat pos))) | _, _ => None end | _ => None end);
     ("s.sl.hamming"%string, fun a => match a with [VL l1; VL o1; VL l2; VL o2] => match vlistN l1, omap v_sop o1, vlistN l2, omap v_sop o2 with
